@@ -66,6 +66,14 @@ Fixpoint consume {S} (app : S -> change -> S) (t : table) (s : S) (ops : list op
 Definition step_t (t : table) (o : op) : table := fst (fst (step t o)).
 Definition step_cs (t : table) (o : op) : list change := snd (fst (step t o)).
 
+(* start_deferral is a start-up operation: it is issued only while the family
+   holds no route (Restarting Speaker mode is entered before any session is up) *)
+Fixpoint startup_deferral (t : table) (ops : list op) : Prop :=
+  match ops with
+  | [] => True
+  | o :: r => (o = StartDeferral -> t_dests t = []) /\ startup_deferral (fst (fst (step t o))) r
+  end.
+
 (* the allocator's own assumption (debug_assert in IdAllocator::alloc): fewer
    than 2^24 destinations in the shard whenever an operation starts *)
 Fixpoint bounded (t : table) (ops : list op) : Prop :=
